@@ -19,6 +19,21 @@ def cases(rng, tier):
     for i in range(n):
         c_ = toygen.image_case(rng, toygen.step_only, max_steps=rng.choice([5, 20, 60]))
         yield toygen.as_text_case(c_) if i % 3 == 2 else c_          # every third image goes through the loader
+    # the same machine driven in EVERY legal call style: each instruction executed either by step(), by the two half-cycle calls
+    # or by two single_step() calls (a snapshot only at instruction boundaries) — "costs two cycles and counts once" however
+    # it is executed
+    for i in range(60 if tier == "quick" else 600):
+        c_ = toygen.image_case(rng, toygen.step_only, max_steps=rng.choice([5, 20, 40]), suite="toy-styles")
+        fixed = [None, ("single", "single"), ("first", "second")][i % 3]          # one style throughout, or a random mix
+        out = []
+        for l in c_.lines:
+            if l == "toy.call step":
+                style = fixed or rng.choice([("step",), ("first", "second"), ("single", "single"), ("first", "single"), ("single", "second")])
+                out += [f"toy.call {x}" for x in style]
+            else:
+                out.append(l)
+        c_.lines = out
+        yield c_
     # short programs, every opcode, boundary operands (incl. one-instruction programs that branch to themselves, to the
     # word after the program and to 0xFFF), independent of the seed
     for n in (1, 2, 3):
@@ -60,6 +75,10 @@ def cases(rng, tier):
             lines = ["toy.new", f"toy.load 2 {w} 49152" + (f" {a}:{memv}" if a >= 2 else ""), f"toy.accu {acc}", "toy.snap",
                      "toy.call step", "toy.snap", "toy.call step", "toy.snap", "toy.call step", "toy.snap"]
             yield Case("toy-sweep", lines, None, {"n": 2, "words": [w, 49152]})
+
+
+STYLES = {("toy.call first", "toy.call second"), ("toy.call single", "toy.call single"), ("toy.call first", "toy.call single"),
+          ("toy.call single", "toy.call second")}
 
 
 def nontrivial(c):
@@ -104,8 +123,11 @@ def oracle(c):
     # walk the calls: only whole `step` calls are interpreted here (C20 covers the other styles)
     for (ia, sa), (ib, sb) in zip(snaps, snaps[1:]):
         call = c.lines[ib - 1]
-        if call == "toy.call step":
+        between = c.lines[ia + 1:ib]
+        if call == "toy.call step" and len(between) == 1:
             count = 1
+        elif len(between) == 2 and tuple(between) in STYLES:
+            count = 1          # one instruction executed as two half cycles
         elif call.startswith("toy.run "):
             count = int(call.split()[1])          # `run` with a step budget: whole steps until done
         else:
